@@ -265,10 +265,53 @@ def gen_pair(rng):
     return "any/any", x, y
 
 
-def gen_cases(run, n, kind):
+def is_finite_bits(b):
+    return (b >> 52) & 0x7ff != 0x7ff
+
+
+def gen_lit_case(rng):
+    """numeric operands that can be written as VRL literals (all i64, finite floats), optionally nested
+    `(x op y) op2 z`: exercises the compile-time constant evaluator against the run-time operators"""
+    def number():
+        if rng.random() < 0.55:
+            return ji(any_int(rng)) if rng.random() < 0.7 else ji(rng.choice([0, 1, -1, 2, 3, 10, -7]))
+        while True:
+            b = any_float_bits(rng)
+            if is_finite_bits(b):
+                return jf_bits(b)
+    r = rng.random()
+    if r < 0.35:
+        a, b = int_pair(rng)
+        x, y = ji(a), ji(b)
+    elif r < 0.55:
+        while True:
+            a, b = float_pair(rng)
+            if is_finite_bits(a) and is_finite_bits(b):
+                break
+        x, y = jf_bits(a), jf_bits(b)
+    elif r < 0.75:
+        while True:
+            z, b = mixed_pair(rng)
+            if is_finite_bits(b):
+                break
+        x, y = (ji(z), jf_bits(b)) if rng.random() < 0.5 else (jf_bits(b), ji(z))
+    else:
+        x, y = number(), number()
+    c = {"kind": "lit", "op": "literal", "x": x, "y": y}
+    if rng.random() < 0.4:
+        c["op"] = "literal-nested"
+        c["op2"] = rng.choice(["add", "sub", "mul", "div"])
+        c["z"] = number() if rng.random() < 0.8 else rng.choice([ji(0), jf_bits(0), jf_bits(1 << 63), ji(-1)])
+    return c
+
+
+def gen_cases(run, n, kind, lit_share=0.0):
     rng = run.rng
     cases = []
     for _ in range(n):
+        if lit_share and rng.random() < lit_share:
+            cases.append(gen_lit_case(rng))
+            continue
         label, x, y = gen_pair(rng)
         x, y = safe_for_repeat(x, y)
         cases.append({"kind": kind, "op": label, "x": x, "y": y})
@@ -321,7 +364,22 @@ def cmp_to_coq(c, o):
                     coq_opt_table("Cmp6", CMP_OPS, o["conv"])])
 
 
+OPCODE = {"add": "OAdd", "sub": "OSub", "mul": "OMul", "div": "ODiv"}
+
+
+def lit_to_coq(c, o):
+    nest = "None"
+    if c.get("z") is not None or "op2" in c:
+        nest = "(Some (%s, %s))" % (OPCODE[c["op2"]], coq_value(c["z"]))
+    folds = ["(Fold3 %s %s %s)" % (coq_outcome(o["res"][k]["plain"]), coq_outcome(o["res"][k]["zip"]),
+                                   coq_outcome(o["res"][k]["var"])) for k in ("add", "sub", "mul", "div")]
+    return _shared("CaseLit %s %s %s %s" % (coq_value(c["x"]), coq_value(c["y"]), nest,
+                                            "true" if o["lit_ok"] else "false"), folds)
+
+
 def arith_to_coq(c, o):
+    if c["kind"] == "lit":
+        return lit_to_coq(c, o)
     return _shared("Case %s %s" % (coq_value(c["x"]), coq_value(c["y"])),
                    [coq_table("Arith5", ARITH_OPS, o["direct"]), coq_table("Arith5", ARITH_OPS, o["e2e"]),
                     coq_opt_table("Arith5", ARITH_OPS, o["conv"]),
